@@ -17,6 +17,21 @@ CLAIMED = {
    technique="Verus contracts on extracted checksum / block-meta / index-footer functions", design='5 (C18), 4.3'),
 }
 
+CLAIMED.update({
+ 'C04': dict(
+   text="Function-level proof of the one piece of crash logic that is a function of data: the record-replay loop of Manifest::replay, extracted verbatim. "
+        "For every record stream: all readable => Ok(fold); first unreadable record is an EOF error (torn tail) => Ok with the fold of the readable prefix and truncation requested; "
+        "any other decode error is reported. Lemmas over the fold: for every sequence of acknowledged transactions and every End-free partial tail the recovered operations are "
+        "exactly the acknowledged ones (atomic, durable), and recovering again gives the same state. Partial: write ordering in commit, orphan files, rename atomicity are not under contract.",
+   note="Assumes A-serde (a byte prefix of concatenated JSON records yields the complete records then at most one EOF error; StreamDeserializer::byte_offset is the end of the last complete record), each append writes Begin..End with End last; file truncation I/O itself unverified; async sequentialised.",
+   technique="Verus loop invariant on the extracted replay loop + inductive lemmas over the transaction log", design='5 (C04), 4.4 U-replay'),
+ 'C03': dict(
+   text="Function-level proofs on the reopen path: replay of a cleanly written log yields exactly the acknowledged operations in order (U-replay lemma_log_replays_to_acknowledged); further units as listed in evidence. "
+        "Partial: file I/O, rowset open, vacuum and catalog id re-derivation are covered only where the evidence lists a unit.",
+   note="Same assumptions as C04; catalog/DDL persistence of views, indexes and functions is a recorded known finding (H8) where listed.",
+   technique="Verus contracts on extracted manifest replay / bootstrap apply loops", design='5 (C03), 4.4'),
+})
+
 NA = {
  'C01': "rewrite rules are egg pattern strings inside rw! macros plus e-class analyses; 'two plan terms have equal SQL results' is not expressible as a contract on a Rust function (would be proving a hand-written semantics = a model)",
  'C05': "whole-engine observational equivalence of two async trait implementations over statement histories; no single-call or single-structure contract states it",
@@ -33,7 +48,7 @@ NA = {
 }
 # claimed in DESIGN.md but not wired yet are listed here with that reason until their units exist
 PENDING = {k: 'planned in DESIGN.md (function-level contracts) but its units are not wired into ./check yet; not claimed until they are'
-           for k in ('C02', 'C03', 'C04', 'C06', 'C07', 'C12')}
+           for k in ('C02', 'C06', 'C07', 'C12')}
 
 
 def main():
